@@ -1684,7 +1684,9 @@ class TokamakEquilibrium(Equilibrium):
     @Equilibrium.handleMultiLocationArray
     def fpolprime(self, psi):
         """psi-derivative of fpol"""
-        return self.fprime_spl(psi * self.f_psi_sign)
+        # f_spl is a function of psi*f_psi_sign, so the chain rule gives a factor of
+        # f_psi_sign
+        return self.f_psi_sign * self.fprime_spl(psi * self.f_psi_sign)
 
     @Equilibrium.handleMultiLocationArray
     def pressure(self, psi):
